@@ -381,3 +381,32 @@ package tcp
 //@   ensures implies(s != nil && old(e.rcvList.tail) == nil, e.rcvList.head == s)
 //@   ensures implies(s == nil, e.rcvClosed && e.rcvList.tail == old(e.rcvList.tail) && e.rcvBufUsed == old(e.rcvBufUsed))
 //@   modifies e.rcvBufUsed, e.rcvList.head, e.rcvList.tail, e.rcvClosed, s.refCnt, s.segmentEntry.next, s.segmentEntry.prev, e.rcvList.tail.segmentEntry.next, ghost(delivered)
+
+//@ func (*segment).decRef props C01 C04 C03 C07
+//@   requires s != nil
+//@   modifies s.refCnt, modset(NETQUIET)
+
+// rcvOK: an initialised receiver.
+//@ define rcvOK(r) = r != nil && r.ep != nil && r.ep.waiterQueue != nil && r.ep.snd != nil && r.ep.snd.ep == r.ep && r.ep.rcv == r && 0 <= r.ep.sack.NumBlocks && r.ep.sack.NumBlocks <= MaxSACKBlocks
+
+// consumeSegment(s, segSeq, segLen): the heart of in-order delivery. A data segment is
+// consumed exactly when it contains the next expected sequence number; then the part before
+// rcvNxt is trimmed away, exactly the bytes from rcvNxt to the end of the segment are
+// delivered (counted by ghost(delivered)), and rcvNxt moves to the end of the segment (one
+// further for FIN). An empty segment is consumed exactly when it sits at rcvNxt. A segment that
+// is not consumed changes neither rcvNxt nor what has been delivered.
+//@ func (*receiver).consumeSegment props C01 C04
+//@   requires rcvOK(r) && s != nil && s != r.ep.rcvList.tail
+//@   requires segLen == seqnum.Size(s.data.size) && segSeq == s.sequenceNumber && s.data.size == vsum(s.data.views) && 0 <= s.data.size && s.data.size <= 0x7fffffff
+//@   requires forall(k, 0, len(r.pendingRcvdSegments), r.pendingRcvdSegments[k] != nil)
+//@   ensures implies(segLen > 0, result == (old(r.rcvNxt) - segSeq < seqnum.Value(segLen)))
+//@   ensures implies(segLen == 0, result == (segSeq == old(r.rcvNxt)))
+//@   ensures implies(!result, r.rcvNxt == old(r.rcvNxt) && ghost(delivered) == old(ghost(delivered)) && r.closed == old(r.closed))
+//@   ensures implies(result && segLen > 0, seqnum.Value(ghost(delivered) - old(ghost(delivered))) == segSeq + seqnum.Value(segLen) - old(r.rcvNxt) && ghost(delivered) - old(ghost(delivered)) >= 1 && ghost(delivered) - old(ghost(delivered)) <= int(segLen))
+//@   ensures implies(result && segLen == 0, ghost(delivered) == old(ghost(delivered)))
+//@   ensures implies(result, r.rcvNxt == segSeq + seqnum.Value(segLen) + ite(old(s.flags) & flagFin != 0, seqnum.Value(1), seqnum.Value(0)))
+//@   ensures implies(result, r.closed == (old(r.closed) || old(s.flags) & flagFin != 0))
+//@   loop 1 invariant first <= i && i <= len(r.pendingRcvdSegments)
+//@   modifies modset(NETSEND), ghost(delivered)
+//@   modifies r.rcvNxt, r.closed, r.pendingRcvdSegments, r.rcvAcc, r.ep.sack.Blocks, r.ep.sack.NumBlocks, r.ep.rcvBufUsed, r.ep.rcvList.head, r.ep.rcvList.tail, r.ep.rcvClosed
+//@   modifies r.ep.snd.lastSendTime, r.ep.snd.rttMeasureTime, r.ep.snd.maxSentAck, structfamily(segment)
